@@ -1035,5 +1035,8 @@ func TestCheck(t *testing.T) {
 	r.Set("decision_points", pts.Load())
 	r.Set("max_depth", maxDepth.Load())
 	r.Set("divergent_branches", div.Load())
+	if os.Getenv("C20_ONLY") == "" {
+		bigIndices(t, r)
+	}
 	r.Finish()
 }
